@@ -39,7 +39,7 @@ OK ==
   /\ Ev.k = "load" => /\ \A r \in Rng(Ev.api) : r.sh = Ev.shard => r \in Rng(Ev.loaded)        \* exactly the persisted conditions of the shard
                       /\ \A r \in Rng(Ev.loaded) : r \in Rng(Ev.api) /\ r.sh = Ev.shard
   /\ \A r \in Rng(Ev.api) : r.sh = T.shard                                \* nothing of another shard is ever written
-Next == /\ l <= Len(T.events) /\ OK
+Next == /\ l <= Len(T.events) /\ (OK = TRUE)
         /\ l' = l + 1 /\ tr' = tr /\ acked' = AckedAfter /\ deleted' = DeletedAfter
         /\ ups' = IF Ev.k = "ack" /\ Ev.op = "save" /\ Ev.ok THEN Set(ups, Ev.n, Ev.up) ELSE ups
 Spec == Init /\ [][Next]_vars
